@@ -11,7 +11,7 @@ def gen_fact(rng):
     f = {}
     for k in rng.sample(KEYS, rng.randint(1, 3)):
         r = rng.random()
-        f[k] = rng.choice(VALS) if r < 0.75 else ({"n": rng.choice(VALS)} if r < 0.9 else rng.sample([1, 2, 3, "x"], 2)[:rng.randint(1, 2)])
+        f[k] = rng.choice(VALS) if r < 0.65 else ({"n": rng.choice(VALS)} if r < 0.8 else rng.sample([1, 2, "x", "y"], 3)[:rng.randint(1, 3)])
     return f
 
 class QG:
@@ -32,7 +32,15 @@ class QG:
                 else:
                     nv = self.fresh(); p[k] = nv; scope.add(nv)
             elif isinstance(v, dict) and rng.random() < 0.5:
-                nv = self.fresh(); p[k] = {"n": nv}; scope.add(nv)
+                if avail and rng.random() < 0.5: p[k] = {"n": avail.pop()}          # shared variable inside a nested map
+                else:
+                    nv = self.fresh(); p[k] = {"n": nv}; scope.add(nv)
+            elif isinstance(v, list) and rng.random() < 0.7:
+                # arrays are sets: a (shared or fresh) variable as element, possibly next to a constant element
+                if avail and rng.random() < 0.6: el = avail.pop()
+                else:
+                    el = self.fresh(); scope.add(el)
+                p[k] = [el] if rng.random() < 0.7 or not v else [el, v[0]]
             else:
                 p[k] = v if rng.random() < 0.9 else rng.choice(VALS)
         if not p:
